@@ -26,7 +26,16 @@ def main(prop, tier, only=None, caps=None):
     assumptions = ['IR from clang++-14 -O1 -D_GLIBCXX_ASSERTIONS -DNDEBUG of the unmodified header', 'll2c IR->C translator (validated per run against g++ build on random vectors)',
                    'allocation never fails', 'std::string overloads are not in this engine (E2)', 'capacities outside the listed ones are not claimed',
                    'source strings <= L+3 bytes', 'sprintf(): not covered (vsnprintf is libc)']
-    return run_units(prop, tier, units, rule, assumptions)
+    rep = Report(prop, tier)
+    if prop == 'C11':
+        # the C reference model is itself checked against the real std::string (native, 1.6 million comparisons)
+        d = workdir('fixed_string_C11')
+        must(run(['g++', '-std=c++17', '-O1', '-I', HERE, os.path.join(HERE, 'ref_check.cpp'), '-o', os.path.join(d, 'ref_check')], timeout=300), 'g++ ref_check')
+        r = run([os.path.join(d, 'ref_check'), str(SEED)], timeout=300)
+        rep.extra['reference_model_vs_std_string'] = r['out'].strip()
+        if r['rc'] != 0 or not r['out'].startswith('OK'):
+            rep.inconc('fixed_string_C11/reference model', 'ref_model.h disagrees with std::string: ' + r['out'][:200])
+    return run_units(prop, tier, units, rule, assumptions, rep=rep)
 
 
 if __name__ == '__main__':
